@@ -264,7 +264,17 @@ def _run_rest(ctx, col, pkg, res, rel, fwd, where, rd, pm):
     mf = pkg.func(f"{MOD}::MultiHeadedAttention.forward")
     rdm = ReachingDefs(mf.node)
     sha = [c for c in own_calls(mf.node) if u(c.func) == "self.single_head_attention"]
-    if len(sha) != 1:
+    direct_mask_axes = None
+    if len(sha) > 1:
+        # one call per arm of a branch on the mask (`if mask is None: .. attention(q, k, v, None) else: .. attention(q, k, v, mask.unsqueeze(-1))`):
+        # the same three tensors everywhere, the mask argument either None or the unsqueezed mask
+        same = len({tuple(u(a_) for a_ in c.args[:3]) for c in sha}) == 1
+        m4s = [c.args[3] for c in sha if len(c.args) > 3 and not (isinstance(c.args[3], ast.Constant) and c.args[3].value is None)]
+        if not same or not all(isinstance(v, ast.Call) and isinstance(v.func, ast.Attribute) and v.func.attr == "unsqueeze" and u(v.func.value) == "mask"
+                               and len(v.args) == 1 for v in m4s) or not m4s:
+            raise AnalysisError("C20: MultiHeadedAttention.forward calls the single-head attention at several sites that do not agree")
+        direct_mask_axes = {u(v.args[0]) for v in m4s}
+    elif len(sha) != 1:
         raise AnalysisError("C20: MultiHeadedAttention.forward does not call the single-head attention once")
     roles = []
     for a in sha[0].args[:3]:
@@ -290,7 +300,11 @@ def _run_rest(ctx, col, pkg, res, rel, fwd, where, rd, pm):
     m4 = sha[0].args[3] if len(sha[0].args) > 3 else None
     okmask = False
     got_axis = None
-    if isinstance(m4, ast.Name) and head_axis_in_scores is not None:
+    if direct_mask_axes is not None and head_axis_in_scores is not None:
+        if len(direct_mask_axes) == 1:
+            got_axis = next(iter(direct_mask_axes))
+            okmask = got_axis == str(head_axis_in_scores)
+    elif isinstance(m4, ast.Name) and head_axis_in_scores is not None:
         # every definition that carries a mask (the parameter itself re-assigned, or a separate optional local that starts as
         # None) is the mask unsqueezed on one and the same axis
         pm_mf = parent_map(mf.node)
